@@ -782,6 +782,10 @@ class Parser(ExprParser):
         self.enter("attribute")
         while self.have("PLUS"):
             name = self.mustbe("ID").value
+            if name[0] == "_":
+                # Internal attributes; gen_decl does not write them.
+                self.error_msg(
+                    "Attribute names starting with '_' are reserved: '{}'", name)
             if self.have("LPAREN"):
                 parens = 1
                 parts = []
@@ -1432,7 +1436,7 @@ class Declaration(Node):
         if use_attrs:
             self.gen_attrs(self.attrs, decl)
 
-    _skip_annotations = ["template"]
+    _skip_annotations = []
 
     def gen_attrs(self, attrs, decl, skip={}):
         space = " "
